@@ -564,6 +564,9 @@ func famProbes(c *core.Ctx) {
 	}
 	lits, litFiles := genLitProbes(c)
 	files := append(append([]srcFile{}, static...), litFiles...)
+	// the type space of style-attribute values: types read from the live source text, probe program generated
+	stSetup := styleTypesSetup(styleSource())
+	files = append(files, srcFile{"styleany.templ", styleTemplSrc})
 	// the generator model (model/Gen.v, the subject of C01_gen_sinks_escaped) emits the same Go text as the
 	// repository's generator on every probe file - hand-written and literal ones
 	var inputs []gentie.Input
@@ -585,7 +588,7 @@ func famProbes(c *core.Ctx) {
 	c.Oblige("correspondence", "probes: every probe file (hand-written and literal) is parsed, generated and serialised for the generator model", len(gens) == len(inputs), strings.Join(unusable, "; "))
 	c.Extra["probe_files_tied_to_generator_model"] = len(gens)
 
-	sc, built, builtLits, err := buildScratch(files, names, nonce)
+	sc, built, builtLits, err := buildScratch(files, names, nonce, srcFile{"styletypes.go", stSetup.goSrc})
 	if err != nil {
 		c.Oblige("correspondence", "probes: every probe template is generated by the repository's generator and compiles", false, err.Error())
 		return
@@ -596,6 +599,7 @@ func famProbes(c *core.Ctx) {
 		litBuilt[n] = true
 	}
 	famLitProbes(c, sc, lits, litBuilt)
+	famStyleTypes(c, sc, stSetup)
 	missing := []string{}
 	have := map[string]bool{}
 	for _, n := range built {
